@@ -44,10 +44,15 @@ use std::{
     },
     time::Duration,
 };
+#[cfg(not(feature = "verif-hooks"))]
 use tokio::{
     sync::mpsc::Receiver,
     task::{spawn, JoinSet},
 };
+#[cfg(feature = "verif-hooks")]
+use ant_networking::verif_hooks::spawn;
+#[cfg(feature = "verif-hooks")]
+use tokio::{sync::mpsc::Receiver, task::JoinSet};
 
 use ant_evm::{EvmNetwork, U256};
 
@@ -1174,3 +1179,8 @@ mod tests {
         assert_eq!(expected_result, result);
     }
 }
+
+#[cfg(feature = "verif-hooks")]
+#[path = "verif_node.rs"]
+#[allow(missing_docs, unreachable_pub)]
+pub(crate) mod verif_node;
